@@ -315,10 +315,10 @@ fn extract_bc_condition(
     if let Some(c) = outer {
         collect_predicates_for_range(c, a_cols, &mut preds);
     }
+    // Conjunct by conjunct: the parts of A⋈B's condition that only mention B belong to B⋈C
+    // (the parts that mention A are kept by extract_a_condition); nothing may be dropped.
     if let Some(c) = inner {
-        if let Some(s) = shift_columns(c, -(a_cols as i32)) {
-            preds.push(s);
-        }
+        collect_predicates_for_range(c, a_cols, &mut preds);
     }
     combine_predicates(preds)
 }
